@@ -2308,7 +2308,7 @@ class Problem(object, metaclass=ProblemMetaclass):
         resolver = self.model._resolver
 
         if inputs:
-            for abs_name in inputs:
+            for abs_name in (inputs if case_is_dict else inputs.absolute_names()):
                 if set_later(abs_name):
                     continue
 
